@@ -1,0 +1,59 @@
+//go:build verif
+// +build verif
+
+// Accessors for the runtime monitors in /verif. This file is compiled only
+// with the build tag "verif"; it adds wrappers and changes no existing code.
+
+package exec
+
+import (
+	"context"
+
+	"github.com/grailbio/bigslice/frame"
+	"github.com/grailbio/bigslice/slicefunc"
+	"github.com/grailbio/bigslice/sliceio"
+	"github.com/grailbio/bigslice/slicetype"
+)
+
+// VerifMultiReader returns exec's private concatenating reader.
+func VerifMultiReader(readers ...sliceio.Reader) sliceio.Reader {
+	return &multiReader{q: readers}
+}
+
+// VerifTaskBufferReader returns a reader over partitions of frames as
+// buffered by the local executor.
+func VerifTaskBufferReader(partitions [][]frame.Frame, partition int) sliceio.ReadCloser {
+	return taskBuffer(partitions).Reader(partition)
+}
+
+// VerifCombiningFrame wraps a combiningFrame.
+type VerifCombiningFrame struct{ c *combiningFrame }
+
+// VerifMakeCombiningFrame calls makeCombiningFrame.
+func VerifMakeCombiningFrame(typ slicetype.Type, combiner slicefunc.Func, n, nscratch int) VerifCombiningFrame {
+	return VerifCombiningFrame{makeCombiningFrame(typ, combiner, n, nscratch)}
+}
+
+func (v VerifCombiningFrame) Combine(f frame.Frame) { v.c.Combine(f) }
+func (v VerifCombiningFrame) Compact() frame.Frame  { return v.c.Compact() }
+func (v VerifCombiningFrame) Len() int              { return v.c.Len() }
+func (v VerifCombiningFrame) Cap() int              { return v.c.Cap() }
+
+// VerifHashSeed is the seed used by combining frames.
+const VerifHashSeed = hashSeed
+
+// VerifCombiner wraps a combiner.
+type VerifCombiner struct{ c *combiner }
+
+// VerifNewCombiner calls newCombiner.
+func VerifNewCombiner(typ slicetype.Type, name string, comb slicefunc.Func, targetSize int) (VerifCombiner, error) {
+	c, err := newCombiner(typ, name, comb, targetSize)
+	return VerifCombiner{c}, err
+}
+
+func (v VerifCombiner) Combine(ctx context.Context, f frame.Frame) error { return v.c.Combine(ctx, f) }
+func (v VerifCombiner) Reader() (sliceio.Reader, error)                  { return v.c.Reader() }
+func (v VerifCombiner) Discard() error                                   { return v.c.Discard() }
+func (v VerifCombiner) WriteTo(ctx context.Context, enc *sliceio.Encoder) (int64, error) {
+	return v.c.WriteTo(ctx, enc)
+}
